@@ -126,7 +126,8 @@ func runC15(r *rep.Report, thorough bool) error {
 	var good []*analysed
 	randText := map[string]string{}
 	for _, a := range as {
-		if a.Ana == nil || a.Env == nil || !supportedEnv(a.Env) {
+		// pointers are inside C15's quantifier: randdata generates them (rand<T>Ptr)
+		if a.Ana == nil || a.Env == nil || !supportedEnvOpt(a.Env, true) {
 			continue
 		}
 		t := runTarget("randdata", a, l.Mod.Root)
